@@ -13,6 +13,7 @@ import random
 import sys
 
 sys.path.insert(0, os.path.dirname(os.path.abspath(__file__)))
+from _report import spread  # noqa: E402
 from vmref import RefVM, corpus  # noqa: E402
 import fickling.fickle as fk  # noqa: E402
 
@@ -274,4 +275,4 @@ for name, data in corpus():
     if not name.startswith("natural"):
         check("asm:" + name, data)
 by = collections.Counter(f["kind"] for f in fails)
-print(json.dumps({"bounded": True, "programs": n, "plain_data_programs": n_plain, "by_kind": dict(by), "unsupported_opcodes_skipped": UNSUPPORTED, "n_failures": len(fails), "failures": fails[:120]}, default=str))
+print(json.dumps({"bounded": True, "programs": n, "plain_data_programs": n_plain, "by_kind": dict(by), "unsupported_opcodes_skipped": UNSUPPORTED, "n_failures": len(fails), "failures": spread(fails, lambda f: (f["kind"], f.get("note")), per=8)}, default=str))
